@@ -11,6 +11,8 @@
 //!  * c11-foreign-handle-detached: a detach names a handle whose current owner is not the link the op is about;
 //!  * c11-own-handle-detached-twice: the op's own link writes a second detach for the handle it has just given up;
 //!  * c11-handle-shared: an attach names a handle that another link still owns;
+//!  * c02-foreign-outcome / c02-outcome-missing: the peer numbers its link ends the other way round than the client and rejects
+//!    the deliveries of link b while accepting the others: every send resolves with the outcome of its own delivery;
 //!  * c11-link-broken-by-other: `send x` on a link that is attached, has credit and was never detached fails.
 use crate::c12::{peer_begin, peer_open};
 use crate::eng::*;
@@ -50,8 +52,11 @@ impl PeerSt {
                     Performative::Attach(a) => {
                         toks.push(format!("A({}:h{})", a.name, a.handle.0));
                         self.names.insert(a.handle.0, a.name.clone());
-                        let ph = self.next_peer_handle;
+                        // the peer numbers its link ends the other way round than the client does (1,0,3,2,..): an outcome routed by
+                        // the wrong side's handle reaches another link
+                        let k = self.next_peer_handle;
                         self.next_peer_handle += 1;
+                        let ph = k ^ 1;
                         self.my_handle.insert(a.name.clone(), ph);
                         let reply = Attach {
                             name: a.name.clone(),
@@ -100,7 +105,14 @@ impl PeerSt {
                     Performative::Transfer(t) => {
                         toks.push(format!("T(h{})", t.handle.0));
                         if let (Some(id), false) = (t.delivery_id, t.settled.unwrap_or(false)) {
-                            let disp = Disposition { role: Role::Receiver, first: id, last: None, settled: true, state: Some(DeliveryState::Accepted(Accepted {})), batchable: false };
+                            // deliveries on link "b" are rejected, all others accepted: every send must get the outcome of its OWN delivery
+                            let on_b = self.names.get(&t.handle.0).map(|n| n == "b").unwrap_or(false);
+                            let state = if on_b {
+                                DeliveryState::Rejected(fe2o3_amqp_types::messaging::Rejected { error: None })
+                            } else {
+                                DeliveryState::Accepted(Accepted {})
+                            };
+                            let disp = Disposition { role: Role::Receiver, first: id, last: None, settled: true, state: Some(state), batchable: false };
                             out.extend(frame_bytes(0, &Performative::Disposition(disp), &[]));
                         }
                     }
@@ -129,7 +141,7 @@ pub fn run_script(script: &str) -> String {
     let ops: Vec<Vec<String>> = script.split(';').map(|o| o.split_whitespace().map(|x| x.to_string()).collect::<Vec<_>>()).filter(|o: &Vec<String>| !o.is_empty()).collect();
     paused_rt().block_on(async move {
         let (a, b) = tokio::io::duplex(1 << 20);
-        let mut st = PeerSt { peer: Peer::new(b), names: HashMap::new(), my_handle: HashMap::new(), next_peer_handle: 10, expecting_detach: Vec::new(), log: Vec::new() };
+        let mut st = PeerSt { peer: Peer::new(b), names: HashMap::new(), my_handle: HashMap::new(), next_peer_handle: 0, expecting_detach: Vec::new(), log: Vec::new() };
         // open + begin
         let opening = tokio::spawn(async move {
             let mut conn = Connection::builder().container_id("c").open_with_stream(a).await.map_err(|e| format!("{:?}", e))?;
@@ -270,7 +282,7 @@ pub fn run_script(script: &str) -> String {
                     Some(L::Live(s)) => {
                         let r = drive!(s.send("m"));
                         res = match r {
-                            Some(Ok(_)) => "ok".into(),
+                            Some(Ok(o)) => format!("ok:{}", &format!("{:?}", o)[..8.min(format!("{:?}", o).len())]),
                             Some(Err(e)) => format!("err({})", &format!("{:?}", e)[..24.min(format!("{:?}", e).len())]),
                             None => "PENDING".into(),
                         };
@@ -344,7 +356,17 @@ pub fn oracle(trace: &str) -> Vec<(String, String)> {
                 }
             }
         }
-        if verb == "send" && res != "ok" && res != "skip" && !detached_ever.iter().any(|l| l == x) {
+        if verb == "send" && res.starts_with("ok:") {
+            // C02: the outcome a send resolves with is the one the peer gave for that very delivery
+            let want = if x == "b" { "Rejected" } else { "Accepted" };
+            if !res.starts_with(&format!("ok:{}", want)) {
+                v.push(("c02-foreign-outcome".to_string(), format!("`send {}` resolved with {} - the peer answered the deliveries of link {} with {}", x, res, x, want)));
+            }
+        }
+        if verb == "send" && res == "PENDING" && !detached_ever.iter().any(|l| l == x) {
+            v.push(("c02-outcome-missing".to_string(), format!("`send {}` never resolved although the peer settled its delivery with an outcome", x)));
+        }
+        if verb == "send" && !res.starts_with("ok") && res != "skip" && !detached_ever.iter().any(|l| l == x) {
             v.push(("c11-link-broken-by-other".to_string(), format!("`send {}` ended with {} although link {} was attached, had credit and was never detached", x, res, x)));
         }
     }
@@ -432,7 +454,7 @@ pub fn run(seed: u64, n: u64, _thorough: bool, _corpus: &[String], dir: &str) {
         for op in s.split(';') {
             out.count(&format!("op_{}", op.trim().split_whitespace().next().unwrap_or("?")));
         }
-        if t.matches("send").count() >= 1 && t.contains("=ok") {
+        if t.matches("send").count() >= 1 && t.contains("=ok:") {
             out.nontrivial(&line);
         }
         for (c, w) in oracle(&t) {
